@@ -29,9 +29,10 @@ func init() {
 			"Added after blind round 6: the block checksum is computed last and covers everything but itself on both sides (the restart count steers decoding); every *block.Iterator stored anywhere in pkg/sstable is made on the spot by block.Reader.Iterator(), which returns a fresh allocation (table iterators never share a cursor). " +
 			"Added after blind round 6: the cursor protocol of the block entry decoders: decodeCurrent, like decodeNext, consumes the writer's field sequence and leaves the cursor behind the entry (tree defect, repaired: 8de228a — the entry an iterator was positioned on was delivered twice). " +
 			"Added after blind round 7: the block builder stores copies of key and value; the delta-base rule of C01. " +
-			"Added after blind round 8: the fetcher and index-cursor rules of C01/C05.",
+			"Added after blind round 8: the fetcher and index-cursor rules of C01/C05. " +
+			"Added after blind round 8: ParseBlockLocator, like FetchBlock, has no failing exit decided by a constant cap on the block size; every successful exit of sstable.Iterator.Seek lies behind indexIterator.Seek(target).",
 		NotDecided: "DECLARED UNDECIDED: the exact landing position of Seek beyond the two structural conditions of (10) (e.g. what Seek answers at the end of a block), and 'every entry exactly once' beyond the cursor protocol of the two entry decoders (both must leave the cursor behind the entry they decode — decided since session 4; the tree's decodeCurrent did not, repaired by 8de228a). Also not decided: point-lookup completeness for all data sets, behaviour under arbitrary corruption.",
-		Rules:      []func(*Ctx, *Reporter){ruleFooterCodec, ruleIndexEntryCodec, ruleBlockEntryTrace, ruleBlockTrailer, ruleSstChecksums, ruleBloomKey, ruleBloomSiblings, ruleBuilderStrictOrder, ruleIndexFirstKey, ruleNoNarrowArithmetic, ruleEmptyNotDeleted, ruleTombstoneMarker, ruleSstReentrancy, ruleRetainedBuffersAreFresh, ruleReaderLimitsCoverFormat, ruleBlockSeekInterval, ruleIndexSeekAgreement, ruleTempFilePerTable, ruleBlockChecksumCoverage, ruleIteratorsOwnCursors, ruleBuilderCopiesValues, ruleDeltaBaseIsPredecessor, ruleNoCapOnBlockSize, ruleTableIteratorRewindsIndex},
+		Rules:      []func(*Ctx, *Reporter){ruleFooterCodec, ruleIndexEntryCodec, ruleBlockEntryTrace, ruleBlockTrailer, ruleSstChecksums, ruleBloomKey, ruleBloomSiblings, ruleBuilderStrictOrder, ruleIndexFirstKey, ruleNoNarrowArithmetic, ruleEmptyNotDeleted, ruleTombstoneMarker, ruleSstReentrancy, ruleRetainedBuffersAreFresh, ruleReaderLimitsCoverFormat, ruleBlockSeekInterval, ruleIndexSeekAgreement, ruleTempFilePerTable, ruleBlockChecksumCoverage, ruleIteratorsOwnCursors, ruleBuilderCopiesValues, ruleDeltaBaseIsPredecessor, ruleNoCapOnBlockSize, ruleTableIteratorRewindsIndex, ruleTableSeekAlwaysAsksIndex},
 	})
 }
 
